@@ -19,6 +19,10 @@ type connStatus struct {
 	*sync.RWMutex
 	cond    *sync.Cond
 	current connStatusValue
+	// outages counts the transitions into connStatusReconnecting. The Reconnecting value itself can be gone again (a fast
+	// redial) before a waiter woken by the broadcast gets to look at it; a waiter that must not miss an outage compares
+	// this counter with the value it saw when it attached to the connection.
+	outages uint64
 }
 
 func newConnState() *connStatus {
@@ -65,8 +69,22 @@ func (e *connStatus) CompareAndSwapNot(old, new connStatusValue) (swapped bool) 
 	return true
 }
 
+// Outages returns the number of outages (transitions into connStatusReconnecting) so far.
+func (e *connStatus) Outages() uint64 {
+	e.RLock()
+	defer e.RUnlock()
+	return e.outages
+}
+
+func (e *connStatus) OutagesWithoutLock() uint64 {
+	return e.outages
+}
+
 func (e *connStatus) SwapWithoutLock(state connStatusValue) (old connStatusValue) {
 	old = e.current
+	if state == connStatusReconnecting && old != connStatusReconnecting {
+		e.outages++
+	}
 	e.current = state
 	e.cond.Broadcast()
 	return
